@@ -2,7 +2,7 @@ From Coq Require Import List NArith Bool.
 From V.gen Require Consts.
 From V.C03 Require Import Model Msg Proofs UviProofs LsProofs WebRtc WebRtcProofs Fallback.
 From V.C03 Require Import MsgRef MsgProofs MsgInv Chan Dir SimD SimL SimSys BytesThm LazyThm.
-From V.C03 Require Import Work Work2 Live.
+From V.C03 Require Import Work Work2 Live Timed TimedProofs Survivor NegOps LazyBytes Compose Sub SubProofs.
 Import ListNotations.
 Open Scope N_scope.
 From V.C03 Require Import Properties.
@@ -167,3 +167,142 @@ Check (C03_unknown_not_supported :
 Check (C03_offered_always_supported :
   forall cfg n, In n (offered cfg) ->
   exists m fb, report cfg n = Some (m, fb) /\ In m (mains cfg)).
+Check (C03_report_consistent :
+  forall cfg n m fb, report cfg n = Some (m, fb) ->
+  In m (mains cfg) /\
+  match fb with
+  | Some f => f = n /\ exists fs, In (m, fs) cfg /\ In n fs
+  | None => m = n /\ ~ In n (fallbacks cfg)
+  end).
+Check (C03_report_order_irrelevant :
+  forall cfg cfg' n, wf_cfg cfg -> Permutation.Permutation cfg cfg' -> report cfg' n = report cfg n).
+Check (C03_codec_resolves_like_report :
+  forall cfg n, resolve cfg n = option_map fst (report cfg n)).
+Check (C03_fallback_oracle_exact :
+  forall cfg n r, wf_cfg cfg -> ok_rep cfg n r = true -> r = report cfg n).
+Check (C03_fallback_oracle_accepts_model :
+  forall case : list N, ok_fallback case (run_fallback case) = true).
+Check (C03_timeout_peer_poll :
+  forall fuel t pin pout t1 pi1 po1,
+  t_poll fuel t pin pout = (t1, pi1, po1) ->
+  exists t1' pi1' po1', t_poll fuel t (pipe_close pin) pout = (t1', pi1', po1') /\
+    ((t1' = t1 /\ pi1' = pipe_close pi1 /\ po1' = po1) \/
+     (t_ph t1' = TDone /\
+      (fst (t_res t1') <> 0 \/
+       (t_res t1' = t_res t1 /\
+        exists acc, t_ph t1 = TRead NCompleted acc /\ t_got t1' = acc /\ t_end t1' = 0) \/
+       (t_res t1' = t_res t1 /\ t_end t1' <> 0 /\
+        exists g acc, t_ph t1 = TRead g acc /\ g <> NCompleted))))).
+Check (C03_timeout_dialer_result :
+  forall c to_d to_l es, wf_case c ->
+  forall i, t_res (s_d (ts_sys (trun to_d to_l es (tinit c)))) = (0, i) ->
+  exists p, first_common (c_ds c) (c_ls c) = Some p /\ first_at (c_ds c) (c_ls c) i p).
+Check (C03_timeout_listener_result :
+  forall c to_d to_l es, wf_case c ->
+  forall j, t_res (s_l (ts_sys (trun to_d to_l es (tinit c)))) = (0, j) ->
+  exists p, first_common (c_ds c) (c_ls c) = Some p /\ lidx 0 (c_ls c) p = Some j).
+Check (C03_timeout_both_ok_plain :
+  forall c to_d to_l es,
+  let sa := ts_sys (trun to_d to_l es (tinit c)) in
+  fst (t_res (s_d sa)) = 0 -> fst (t_res (s_l sa)) = 0 ->
+  exists who, sa = polls who (sys_init c)).
+Check (C03_timeout_survivor_clean :
+  forall c, wf_case c -> forall to_d to_l es,
+  let sa := ts_sys (trun to_d to_l es (tinit c)) in
+  t_done (s_d sa) = true -> t_done (s_l sa) = true ->
+  fst (t_res (s_d sa)) <> 0 -> fst (t_res (s_l sa)) = 0 ->
+  t_got (s_l sa) = [] /\ t_end (s_l sa) = 0).
+Check (C03_timeout_terminates :
+  forall c to_d to_l, wf_case c -> forall K es,
+  tfair K es -> Phi (sys_init c) < N.of_nat K ->
+  let sa := ts_sys (trun to_d to_l es (tinit c)) in
+  t_done (s_d sa) = true /\ t_done (s_l sa) = true).
+Check (C03_timeout_no_fire :
+  forall c to_d to_l es, nticks es < to_d -> nticks es < to_l ->
+  ts_sys (trun to_d to_l es (tinit c)) = polls (polls_of es) (sys_init c)).
+Check (C03_timeout_run_correct :
+  forall c to_d to_l fuel S st, wf_case c ->
+  run_tsys to_d to_l fuel (c_sched c) false 0 (tinit c) = (S, st) ->
+  let s := ts_sys S in
+  (forall i, t_res (s_d s) = (0, i) ->
+     exists p, first_common (c_ds c) (c_ls c) = Some p /\ first_at (c_ds c) (c_ls c) i p) /\
+  (forall j, t_res (s_l s) = (0, j) ->
+     exists p, first_common (c_ds c) (c_ls c) = Some p /\ lidx 0 (c_ls c) p = Some j) /\
+  (st = 0 -> fst (t_res (s_d s)) = 0 -> fst (t_res (s_l s)) = 0 ->
+     t_got (s_l s) = c_dpay c /\ t_got (s_d s) = c_lpay c /\
+     t_end (s_d s) = 0 /\ t_end (s_l s) = 0 /\ p_buf (s_dl s) = [] /\ p_buf (s_ld s) = [])).
+Check (C03_lazy_expect_exact :
+  forall p m tail, okmsg m ->
+  forall fuel st wbuf hdr pre pin pout g' pin' pout' r,
+  ExpAt m hdr st pre ->
+  (exists fut, pre ++ p_buf pin ++ fut = fr MHeader ++ fr m ++ tail) ->
+  neg_poll fuel (NExpecting st wbuf p hdr) pin pout = (g', pin', pout', r) ->
+  exists consumed written w',
+    p_buf pin = consumed ++ p_buf pin' /\ wbuf = written ++ w' /\ p_buf pout' = p_buf pout ++ written /\
+    match r with
+    | PPending => exists st' hdr', g' = NExpecting st' w' p hdr' /\ ExpAt m hdr' st' (pre ++ consumed)
+    | _ =>
+        (w' = [] /\ pre ++ consumed = fr MHeader ++ fr m /\ r = verdict p m /\ g' = after_verdict r) \/
+        (r = PErr C_IO_EOF /\ p_closed pin = true /\ p_buf pin' = [] /\ g' = NInvalid)
+    end).
+Check (C03_lazy_read_exact :
+  forall p m tail k, okmsg m -> 1 <= k ->
+  forall st wbuf hdr pre pin pout g' pin' pout' r,
+  ExpAt m hdr st pre ->
+  (exists fut, pre ++ p_buf pin ++ fut = fr MHeader ++ fr m ++ tail) ->
+  op_read 2 k (NExpecting st wbuf p hdr) pin pout = (g', pin', pout', r) ->
+  exists consumed, p_buf pin = consumed ++ p_buf pin' /\
+  match r with
+  | OData bs =>
+      verdict p m = POk /\ g' = NCompleted /\ pre ++ consumed = fr MHeader ++ fr m ++ bs /\
+      p_buf pout' = p_buf pout ++ wbuf /\ (bs = [] -> p_buf pin' = [] /\ p_closed pin = true)
+  | OErr c =>
+      g' = NInvalid /\ p_closed pout' = true /\
+      ((exists c0, verdict p m = PErr c0 /\ c = io_code c0 /\ pre ++ consumed = fr MHeader ++ fr m) \/
+       (c = C_IO_EOF /\ p_closed pin = true /\ p_buf pin' = []))
+  | OPending => exists z, pre ++ consumed ++ z = fr MHeader ++ fr m
+  | ODone _ => False
+  end).
+Check (C03_lazy_write_exact :
+  forall op st wbuf p hdr pin pout g' pin' pout' r,
+  (match op with OpRead _ => False | OpWrite d => d <> [] | _ => True end) ->
+  op_poll op (NExpecting st wbuf p hdr) pin pout = (g', pin', pout', r) ->
+  exists written w' app,
+    pin' = pin /\ g' = NExpecting st w' p hdr /\ wbuf = written ++ w' /\
+    p_buf pout' = p_buf pout ++ written ++ app /\ (app <> [] -> w' = []) /\
+    match r with
+    | OPending => app = []
+    | ODone n =>
+        w' = [] /\
+        match op with
+        | OpWrite d => app = firstn (N.to_nat n) d /\ 1 <= n
+        | OpClose => app = [] /\ p_closed pout' = true
+        | _ => app = []
+        end
+    | _ => False
+    end).
+Check (C03_negotiated_failed_sticky :
+  forall op pin pout,
+  exists pout', op_poll op NInvalid pin pout = (NInvalid, pin, pout', OErr NEG_GONE) /\
+                p_buf pout' = p_buf pout /\ p_total pout' = p_total pout).
+Check (C03_substream_fallback_agreement :
+  forall c to_d to_l es cfgD cfgL p fs,
+  wf_case c -> c_ds c = p :: fs ->
+  wf_cfg cfgD -> In (p, fs) cfgD ->
+  (forall n, In n (c_ls c) <-> In n (offered cfgL)) ->
+  forall i, t_res (s_d (ts_sys (trun to_d to_l es (tinit c)))) = (0, i) ->
+  exists n,
+    nth_error (p :: fs) (N.to_nat i) = Some n /\
+    first_common (p :: fs) (c_ls c) = Some n /\
+    (forall k q, (k < N.to_nat i)%nat -> nth_error (p :: fs) k = Some q -> ~ In q (offered cfgL)) /\
+    report cfgD n = Some (p, if i =? 0 then None else Some n) /\
+    exists m fb, report cfgL n = Some (m, fb) /\ In m (mains cfgL)).
+Check (C03_substream_fallback_listener :
+  forall c to_d to_l es cfgL,
+  wf_case c -> (forall n, In n (c_ls c) <-> In n (offered cfgL)) ->
+  forall j, t_res (s_l (ts_sys (trun to_d to_l es (tinit c)))) = (0, j) ->
+  exists n, first_common (c_ds c) (c_ls c) = Some n /\ nth_error (c_ls c) (N.to_nat j) = Some n /\
+    exists m fb, report cfgL n = Some (m, fb) /\ In m (mains cfgL) /\
+      (wf_cfg cfgL -> report cfgL n = spec cfgL n)).
+Check (C03_sub_oracle_accepts_model :
+  forall case : list N, ok_sub case (run_sub case) = true).
